@@ -1587,12 +1587,14 @@ def _assume(t, cond, value):
         facts = [(c, False) for c in cond[1]]
     else:
         facts = [(cond, value)]
+    # a subscript d[k] evaluated by the condition (without raising) shows that k is present in d on both branches
+    evaluated = [(x[2], x[1]) for x in walk(cond) if x[0] == 'sub' and x[2][0] != 'slice']
     facts = [(c, v) for c, v in facts if c[0] in ('cmp', 'ge0', 'not')]      # only boolean-valued conditions (not truthiness of a value)
-    if not facts:
+    if not facts and not evaluated:
         return t
     neg = [(_negate_bool(c), not v) for c, v in facts if c[0] in ('cmp', 'ge0') or (c[0] == 'not' and c[1][0] in ('cmp', 'ge0', 'not', 'and', 'or'))]
     known = dict(facts + neg)
-    present = [(c[2], c[3]) for c, v in known.items() if c[0] == 'cmp' and ((c[1] == 'In' and v) or (c[1] == 'NotIn' and not v))]
+    present = [(c[2], c[3]) for c, v in known.items() if c[0] == 'cmp' and ((c[1] == 'In' and v) or (c[1] == 'NotIn' and not v))] + evaluated
 
     def f(x):
         if x in known and x[0] != 'const':
